@@ -168,7 +168,7 @@ def run(ck):
             script.append(["req", rid, "inlayHint", rel, 0, 0, el, ec])
             reqs.append((rid, "inlayHint", p, per[p]))
             rid += 1
-        lines.append("srv " + json.dumps({"dir": d, "disk": {k: v for k, v in w.items() if k != "main.td"}, "script": script, "timeout_ms": 10000}))
+        lines.append("srv " + json.dumps({"dir": d, "disk": {k: v for k, v in w.items() if k != "main.td"}, "script": script, "timeout_ms": 10000, **({"caps": "full"} if len(script) % 2 else {})}))
         metas.append((w, diags, reqs, d))
     res = core.impl(lines, timeout=300, jobs=8, tag="s09")
     nontriv = set()
@@ -246,7 +246,7 @@ def run(ck):
                 continue
             d = "%s/tmp/c09r_%d_%d" % (core.BUILD, i, vi)
             script = [["open", "main.td", m1], ["idle"], ["change", "main.td", m2], ["idle"]]
-            rlines.append("srv " + json.dumps({"dir": d, "disk": {k_: v for k_, v in w.items() if k_ != "main.td"}, "script": script, "timeout_ms": 10000}))
+            rlines.append("srv " + json.dumps({"dir": d, "disk": {k_: v for k_, v in w.items() if k_ != "main.td"}, "script": script, "timeout_ms": 10000, **({"caps": "full"} if len(script) % 2 else {})}))
             w2 = dict(w)
             w2["main.td"] = m2
             rmeta.append((w2, d))
